@@ -223,7 +223,7 @@ def execute(scenario):
             try:
                 world.build_contract(spec)
             except Exception as e:
-                v.append({"clause": "chain_construction", "sig": {"cls": spec["cls"], "exc": type(e).__name__}, "op": None,
+                v.append({"clause": "chain_construction", "sig": {"cls": spec["cls"], "exc": core.exc_name(e)}, "op": None,
                           "msg": "a {} chain {} cannot be built: {!r}".format(spec["cls"], {k: spec[k] for k in spec if k != "name"}, e)})
         return {"violations": v, "digest": core.digest([str(v)]), "probes": {}, "faults": {}, "stats": {"ops": 0}, "trace": "construct", "nontrivial": False}
     sim = epi.run_scenario(scenario)
